@@ -24,6 +24,7 @@ from .vc import REGISTRY, SymVC, NatVC, SkipCase, make_models
 from .backends import Pool, to_smt2
 
 VERIF = os.path.dirname(os.path.dirname(os.path.abspath(__file__)))
+sys.setrecursionlimit(20000)
 
 
 def load_contracts(prop):
@@ -50,6 +51,7 @@ def explore(cdef, interp, max_paths=400):
         interp.loop_specs.clear()
         vc.getvals = []
         vc.end_checks = []
+        vc.allowed_raises = set()
         vc.may_raise = False
         info["paths"] += 1
         if info["paths"] > max_paths:
